@@ -769,6 +769,20 @@ def run(chk: Check) -> None:
         selftest(chk)
 
 
+def pre_gate(chk: Check) -> None:
+    """Regenerate lean/Gen/CkptGen.lean from the source text of the tree under test (before the Lean gate): the rule
+    table of `get_checkpoint_dict` / `inspect_attributes`, the guarded steps of `load_checkpoint` / `load` and the
+    wrapper's dict-merge order (py2lean_ckpt.py), and re-check `generated tables = model tables`
+    (Proofs/CkptGenEq.lean) and the C07 theorems restated with the generated table (Props/C07.lean).  A rejected
+    source or an equality that stops checking is a gate problem naming the declaration; the round-trip suite below
+    (both load paths, wrapped agents with two generations, attributes that are None at save time) then supplies
+    the failing history."""
+    import common
+    import py2lean_ckpt
+    common.translation_gate(chk, py2lean_ckpt, "Gen/CkptGen.lean", ["Gen.CkptGen", "Proofs.CkptGenEq", "Props.C07"],
+                            "checkpoint rule table, load phases and wrapper merge order")
+
+
 # ------------------------------------------------------------------------------------ self-test
 def selftest(chk: Check) -> None:
     """seeded faults in the checkpoint code must be noticed"""
